@@ -5,10 +5,10 @@ from rules import common, c09
 
 CLAIMED = True
 TECHNIQUE = "static analysis over type-checked MIR: provenance of every update of the width counters (char_starts results / unit steps inside a lead-byte-filtered iteration, never byte lengths), normal form of the UTF-8 lead-byte predicate, writer-type composition table of Chunk::encode per (min,max,align) arm, must-follow of finish() after the chunk's encode, pad-before/after-content ordering in the two finish functions"
-LEVEL_TEXT = """Static decision of four structural clauses (the width law itself — cut position arithmetic, partial-write accounting, text arriving split inside a code point — is NOT claimed): (A1) every update of MaxWidthWriter.remaining, LeftAlignWriter.to_fill and RightAlignWriter.to_fill subtracts either a char_starts(..) result or 1 inside an iteration filtered by is_char_boundary — never a byte length; the cut index comes from the lead-byte-filtered enumerate, so the cut falls on a lead byte; (A2) is_char_boundary(b) is a recognised form of 'not a UTF-8 continuation byte'; char_starts counts exactly the bytes satisfying it; (A5) MaxWidthWriter::write swallows a buffer (returns Ok(buf.len()) without forwarding) only when the cut index computed by the lead-byte scan is 0; (A3) in Chunk::encode the writer per (min,max,align) arm is MaxWidthWriter alone, Left/RightAlignWriter alone, or Left/RightAlignWriter<MaxWidthWriter> (alignment outside, limit inside, so padding also passes the limit), with min feeding to_fill, max feeding remaining and params.fill feeding fill; (A4) on both alignment arms finish() follows the chunk's encode on every Ok path; RightAlignWriter::finish writes the fill before replaying the buffer, LeftAlignWriter::finish writes it after the content (the content has already been forwarded)."""
+LEVEL_TEXT = """Static decision of structural clauses: (A6) in the specification parser the fill character is stored without any test on its own value (so `<`, `>` and the syntax characters are legal fills), exactly when the following character is `<` or `>`, and `<`/`>` select left/right alignment; and of four writer clauses (the width law itself — cut position arithmetic, partial-write accounting, text arriving split inside a code point — is NOT claimed): (A1) every update of MaxWidthWriter.remaining, LeftAlignWriter.to_fill and RightAlignWriter.to_fill subtracts either a char_starts(..) result or 1 inside an iteration filtered by is_char_boundary — never a byte length; the cut index comes from the lead-byte-filtered enumerate, so the cut falls on a lead byte; (A2) is_char_boundary(b) is a recognised form of 'not a UTF-8 continuation byte'; char_starts counts exactly the bytes satisfying it; (A5) MaxWidthWriter::write swallows a buffer (returns Ok(buf.len()) without forwarding) only when the cut index computed by the lead-byte scan is 0; (A3) in Chunk::encode the writer per (min,max,align) arm is MaxWidthWriter alone, Left/RightAlignWriter alone, or Left/RightAlignWriter<MaxWidthWriter> (alignment outside, limit inside, so padding also passes the limit), with min feeding to_fill, max feeding remaining and params.fill feeding fill; (A4) on both alignment arms finish() follows the chunk's encode on every Ok path; RightAlignWriter::finish writes the fill before replaying the buffer, LeftAlignWriter::finish writes it after the content (the content has already been forwarded)."""
 LEVEL_NOTE = "Trusted: rustc MIR/callee resolution; io::Write contract of the inner writer; UTF-8 encoding facts (continuation bytes are 0x80..=0xBF)."
 EXPLANATION = """Decided: A1 character counting, A2 boundary predicate, A3 truncate-inside/pad-outside composition, A4 padding happens and on the right side. Undecided: the exact cut position arithmetic, accounting under partial writes, text split inside a code point across write calls."""
-DECIDED = ["A1", "A2", "A3", "A4", "A5"]
+DECIDED = ["A1", "A2", "A3", "A4", "A5", "A6 fill/alignment grammar of the format specification"]
 UNDECIDED = ["cut position arithmetic", "partial-write accounting", "code points split across write calls"]
 TRUSTED = ["rustc nightly MIR + Instance::try_resolve", "io::Write contract", "UTF-8 byte classes"]
 
@@ -45,7 +45,61 @@ def counter_fields(p):
     return out
 
 
+PARAMS_FN = "encode::pattern::parser::Parser::<'a>::parameters"
+PARAMS_ADT = "encode::pattern::parser::Parameters"
+
+
+def rule_spec_grammar(ctx, p, cfg, rid="A6"):
+    """`[[fill]align][min][.max]`: any character may be the fill (also `<`, `>` and the other syntax characters);
+    it is taken exactly when the character after it is an alignment; `<` means left and `>` right."""
+    with ctx.rule(rid, "fill and alignment grammar", cfg) as r:
+        f = p.fn(PARAMS_FN)
+        fills, aligns = [], []
+        for b, i, s in f.assigns():
+            pr = s["lhs"]["p"]
+            hit = [e.get("f") for e in pr if isinstance(e, dict) and e.get("adt") == PARAMS_ADT]
+            if not hit:
+                continue
+            v = f._rvalue(s["rv"], frozenset(), 20, b)
+            if hit[0] == "fill":
+                fills.append((b, v))
+            elif hit[0] == "align":
+                aligns.append((b, v))
+        r.require(len(fills) == 1, "one-fill-store", fn=f, detail="stores to Parameters.fill after the default: %d" % len(fills))
+        for b, v in fills:
+            sv = deep_strip(v)
+            conds = f.conditions(b)
+            chars = [(sb, si, al) for sb, si, al in conds if si.t.get("discr_ty") == "char"]
+            onself = [si for sb, si, al in chars if deep_strip(si.discr) == sv]
+            r.require(not onself, "fill-is-any-character", fn=f, detail="no test on the fill character itself guards its store",
+                      fail_detail="the fill character is stored only if it passes a test on its own value (%s): some characters, e.g. an alignment character used as fill, are refused" % [show(si.discr, 4) for si in onself])
+            others = [(si, sorted(v_ for v_, _ in al if v_ != "otherwise")) for sb, si, al in chars if deep_strip(si.discr) != sv]
+            r.require(len(others) == 1 and others[0][1] == [60, 62], "fill-iff-followed-by-alignment", fn=f,
+                      detail="the store is control-dependent on the next character being '<' or '>': %s" % [(show(si.discr, 4), vs) for si, vs in others])
+            r.require(any(x[0] == "call" and x[1].rsplit("::", 1)[-1] in ("peek", "next") for x in walk(sv)) and not any(x[0] == "const" for x in walk(sv) if x[0] == "const" and x[1] == "char"),
+                      "fill-is-the-looked-at-character", fn=f, detail="stored fill: %s" % show(sv, 4))
+        want = {"Left": "<", "Right": ">"}
+        got = {}
+        for b, v in aligns:
+            sv = deep_strip(v)
+            if sv[0] != "agg":
+                r.fail("align-store-shape", fn=f, detail="Parameters.align := %s" % show(sv, 3))
+                continue
+            for sb, si, al in f.conditions(b):
+                d = strip(si.discr)
+                if d[0] == "call" and d[1] in p.fns and len(d[2]) == 2 and {si.label(x) for x, _ in al} == {True}:
+                    c = deep_strip(d[2][1])
+                    if c[0] == "const" and c[1] == "char":
+                        got.setdefault(sv[2], set()).add(c[2])
+        if len(got) >= 2:
+            common = set.intersection(*got.values())    # e.g. the ':' that introduces the whole specification
+            got = {k: v - common for k, v in got.items()}
+        for k, ch in want.items():
+            r.require(got.get(k) == {ch}, "align:%s" % k, fn=f, detail="Alignment::%s chosen on consume(%r): %s" % (k, ch, sorted(got.get(k, []))))
+
+
 def run_cfg(ctx, p, cfg):
+    rule_spec_grammar(ctx, p, cfg, "A6")
     with ctx.rule("A2", "boundary predicate", cfg) as r:
         pred, cnt = helpers(p)
         e = pred.local_expr(0)
